@@ -14,6 +14,9 @@ ASSUMPTIONS = [
     'element types obey their declared category (a type declaring trivially_relocatable really is; move of category NR is noexcept)',
     'relational comparison of pointers into different objects (the "is v inside [begin,end)" idiom of adjustCapacity) yields a total order on (object, offset)',
     'one arbitrary element cell / value token / allocator block is tracked per proof run (skolemised universal quantification)',
+    'pointer arithmetic on null with offset 0 and null - null are defined (C++), CBMC pointer checks for them are bypassed through L0_PADD / L0_PDIFF',
+    'bounded stand-ins only: concrete L0 (ghost/l0c.h) is an executable reading of the same std:: semantics; inside FlatSet stand-ins the vector operations are replaced by executable specifications (harness/bounded_vec_stubs.c) that restate the contracts proved in the op.* units -- the restatement itself is not machine-checked',
+    'static.traits (C14 converse): trait values are computed by g++ 12 from the real headers for 60 instantiations (three element kinds x four comparators x two underlying vectors / two large containers); other instantiations are not covered',
 ]
 PROP_ASSUMPTIONS = {}
 BOUNDED = {}
